@@ -32,6 +32,10 @@ SimulatedStateModel::SimulatedStateModel
 
 bool SimulatedStateModel::bufferData()
 {
+    /* The simulated trajectory is exhausted. */
+    if (current_simulation_time_ >= simulation_time_)
+        return false;
+
     ++current_simulation_time_;
 
     log();
